@@ -438,17 +438,16 @@ section tb
 variable {U C : Type} (A : Arith D) (Am : Ambient S D) (O : AtlasOracle σ S U C D) (P : AtlasParams D)
   (isFin : D → Bool) (fuel : Nat)
 
-/-- TangentBundle's `interpolate`, **as coded**: the state handed back is
-* `from` (the geodesic failed, or the fix-up projection of a pick other than index 0 failed), or
-* the output of a **successful** fix-up `psi` that was also answered valid, or
-* — the aliasing case, F74 — when the pick is `geodesic[0]` and its fix-up projection *fails*:
-  whatever that failed projection left in `geodesic[0]` (it works in place), which need not satisfy
-  anything.
-The full statement "from or a successful projection" is refuted by `tb_interpolate_alias_fails`. -/
-theorem tb_interpolate_on_manifold_partial (s : σ) (frm tgt : S) (t : D) (x : S) (s' : σ)
+/-- TangentBundle's `interpolate` (code after the fix 8af6fc6c7): the state handed back is `from`
+itself — the geodesic failed, or the pick is `geodesic[0]` (returned untouched), or the fix-up
+projection of another pick failed — or the output of a **successful** fix-up `psi` that was also
+answered valid.  Never one of the lazily stored unprojected states, never the leftovers of a failed
+projection.
+What remains assumed about `from` is exactly that it satisfies the constraint — which
+`discreteGeodesic` tests itself before it stores `geodesic[0]`: see `tb_interpolate_from_checked`. -/
+theorem tb_interpolate_on_manifold (s : σ) (frm tgt : S) (t : D) (x : S) (s' : σ)
     (h : tbInterpolate A Am O P isFin fuel s frm tgt t = some (x, s')) :
-    x = frm ∨ (PsiOut O x ∧ AValid O x) ∨
-      (∃ s₁ r, tbProject O s₁ frm = some r ∧ r.1 = false ∧ x = r.2.1) := by
+    x = frm ∨ (PsiOut O x ∧ AValid O x) := by
   unfold tbInterpolate at h
   simp only at h
   split at h
@@ -459,6 +458,65 @@ theorem tb_interpolate_on_manifold_partial (s : σ) (frm tgt : S) (t : D) (x : S
     rw [hl] at h
     simp only [Option.getD_some] at h
     unfold tbPick at h
+    split at h
+    · cases h
+    · rename_i i _
+      split at h
+      · cases h
+      · rename_i y hy
+        split at h
+        · rename_i hi0
+          subst hi0
+          simp only [Option.some.injEq, Prod.mk.injEq] at h
+          cases l with
+          | nil => simp at hy
+          | cons z zs =>
+            simp only [List.getElem?_cons_zero, Option.some.injEq] at hy
+            simp only [List.head?_cons, Option.some.injEq] at hhead
+            exact Or.inl (by rw [← h.1, ← hy, hhead])
+        · split at h
+          · cases h
+          · rename_i r hr
+            split at h
+            · rename_i hr1
+              simp only [Option.some.injEq, Prod.mk.injEq] at h
+              obtain ⟨hx, _⟩ := h
+              subst hx
+              exact Or.inr (tbProject_true O _ _ r hr hr1)
+            · rw [hhead] at h
+              simp only [Option.map_some, Option.some.injEq, Prod.mk.injEq] at h
+              exact Or.inl h.1.symm
+  · simp only [Option.some.injEq, Prod.mk.injEq] at h
+    exact Or.inl h.1.symm
+
+/-- whenever the TangentBundle geodesic reports success — the only case in which `interpolate`
+looks at the list — `from` was answered `isSatisfied` by the traversal itself. -/
+theorem tb_interpolate_from_checked (s : σ) (frm tgt : S) (i : Bool)
+    (h : (tbGeodesic A Am O P isFin fuel s frm tgt i).ok = true) : (O.isSat s frm).1 = true := by
+  unfold tbGeodesic at h
+  simp only at h
+  split at h
+  · simp at h
+  · rename_i hs
+    simpa using hs
+
+/-- the same statement for the code **before** the fix is only true with a third case: when the
+pick is `geodesic[0]` and its (in-place) fix-up projection fails, the caller got whatever that
+failed projection left in `geodesic[0]` (F74; refuted in full by `tb_interpolate_old_alias_fails`). -/
+theorem tb_interpolate_old_partial (s : σ) (frm tgt : S) (t : D) (x : S) (s' : σ)
+    (h : tbInterpolateOld A Am O P isFin fuel s frm tgt t = some (x, s')) :
+    x = frm ∨ (PsiOut O x ∧ AValid O x) ∨
+      (∃ s₁ r, tbProject O s₁ frm = some r ∧ r.1 = false ∧ x = r.2.1) := by
+  unfold tbInterpolateOld at h
+  simp only at h
+  split at h
+  · rename_i hok
+    simp only [tbGeo] at hok h
+    obtain ⟨l, hl⟩ := tbGeodesic_ok_some A Am O P isFin fuel s frm tgt true hok
+    have hhead := tbGeodesic_head A Am O P isFin fuel s frm tgt true l hl
+    rw [hl] at h
+    simp only [Option.getD_some] at h
+    unfold tbPickOld at h
     split at h
     · cases h
     · rename_i i _
@@ -632,14 +690,20 @@ theorem nonvacuous_atlas_geodesic :
   constructor <;>
     simp [atlasGeodesic, atlasLoop, atlasStep, validOrSkip, leavesChart, lineAtlas, failingAtlas, natArith, lineAmb]
 
-/-- **F74, kernel-checked witness**: `from = to` (the geodesic answers `[from]` at once), every
-`psi` fails leaving 99 in the state it was given: `interpolate(7, 7, t)` hands back 99, neither
-`from` nor the output of a successful projection. -/
-theorem tb_interpolate_alias_fails :
+/-- **F74 (fixed by 8af6fc6c7), kernel-checked witness about the old code**: `from = to` (the
+geodesic answers `[from]` at once), every `psi` fails leaving 99 in the state it was given: the old
+`interpolate(7, 7, t)` handed back 99, neither `from` nor the output of a successful projection;
+the code as it is now returns `from`. -/
+theorem tb_interpolate_old_alias_fails :
+    (tbInterpolateOld natArith lineAmb failingAtlas ⟨1, 3, 5, 0, 1, 200⟩ (fun _ => true) 10 () 7 7 0).map
+      (fun r => r.1) = some 99 ∧
     (tbInterpolate natArith lineAmb failingAtlas ⟨1, 3, 5, 0, 1, 200⟩ (fun _ => true) 10 () 7 7 0).map
-      (fun r => r.1) = some 99 := by
-  simp [tbInterpolate, tbGeo, tbGeodesic, tbPick, tbProject, geodesicInterpolateIdx, sumsOf, failingAtlas,
-    natArith, lineAmb]
+      (fun r => r.1) = some 7 := by
+  constructor
+  · simp [tbInterpolateOld, tbGeo, tbGeodesic, tbPickOld, tbProject, geodesicInterpolateIdx, sumsOf, failingAtlas,
+      natArith, lineAmb]
+  · simp [tbInterpolate, tbGeo, tbGeodesic, tbPick, geodesicInterpolateIdx, sumsOf, failingAtlas,
+      natArith, lineAmb]
 
 /-- the picks that the comment in the source describes as "the closer of the two adjacent states"
 are in fact the first stored state *past* `t` (F15): on `[0, 1, 2]`, `t = 0` picks index 1, not
